@@ -22,6 +22,13 @@ __all__ = [
 _logger = logging.getLogger(__name__)
 
 
+def _task_name(task):
+    # Name used to log task errors. Any object with __awake__ can be
+    # scheduled, not only Function and Routine which have a func attribute.
+    func = getattr(task, 'func', task)
+    return getattr(func, '__qualname__', repr(func))
+
+
 class ClockError(RuntimeError):
     pass
 
@@ -238,7 +245,7 @@ class SystemClock(Clock, metaclass=MetaSystemClock):
                         # Always recover.
                         _logger.error(
                             '%s(%s) scheduled on SystemClock',
-                            type(task).__name__, task.func.__qualname__,
+                            type(task).__name__, _task_name(task),
                             exc_info=1)
                     finally:
                         _libsc3.main._in_awake_call = False
@@ -326,7 +333,7 @@ class Scheduler():
         except Exception:
             _logger.error(
                 '%s(%s) scheduled on AppClock',
-                type(item).__name__, item.func.__qualname__, exc_info=1)
+                type(item).__name__, _task_name(item), exc_info=1)
         finally:
             _libsc3.main._in_awake_call = False
 
@@ -577,7 +584,7 @@ class ClockTask():
         except Exception:
             _logger.error(
                 '%s(%s) scheduled on ClockScheduler',
-                type(self.task).__name__, self.task.func.__qualname__,
+                type(self.task).__name__, _task_name(self.task),
                 exc_info=1)
 
 
@@ -871,7 +878,7 @@ class TempoClock(Clock, metaclass=MetaTempoClock):
                     except Exception:
                         _logger.error(
                             '%s(%s) scheduled on TempoClock id %s',
-                            type(task).__name__, task.func.__qualname__,
+                            type(task).__name__, _task_name(task),
                             id(self), exc_info=1)
                     finally:
                         _libsc3.main._in_awake_call = False
